@@ -70,11 +70,15 @@ def imageSeps (img : Image) (m : Meta) : Except String (List (Nat × Nat)) := do
   let brs ← liveBranches img.bbn m.bbnBump (mkMarks m.bbnBump (trackedOf fl))
   pure (allSeps brs)
 
-/-- **the abstraction function**: the key/value list stored in the directory -/
-def absImage (img : Image) : Except String (List (ByteArray × ByteArray)) := do
+/-- the key/value lists of the leaves, in key order of their separators -/
+def absLeaves (img : Image) : Except String (List (List (ByteArray × ByteArray))) := do
   let m ← imageMeta img
   let seps ← imageSeps img m
-  let ls ← seps.mapM (fun s => leafKVs img.ln m.lnBump s.2)
+  seps.mapM (fun s => leafKVs img.ln m.lnBump s.2)
+
+/-- **the abstraction function**: the key/value list stored in the directory -/
+def absImage (img : Image) : Except String (List (ByteArray × ByteArray)) := do
+  let ls ← absLeaves img
   pure ls.flatten
 
 def strictlySorted : List Nat → Bool
